@@ -49,6 +49,61 @@ impl Prop for C05 {
         hot::wcase_strategy(opts(tier), 0.1).prop_map(|c| to_case(&c)).boxed()
     }
 
+    /// Every DAG of load edges on up to 3 (quick) / 4 (thorough) nodes: node i loads its own leaf and a
+    /// subset of the lower-numbered nodes; then every leaf is edited alone, then all at once in one batch.
+    fn enumerate(&self, tier: Tier) -> Vec<Value> {
+        use crate::world::{ROp, SecondCache};
+        let max = if tier == Tier::Quick { 3 } else { 4 };
+        let mut out = Vec::new();
+        for n in 1..=max {
+            let pairs: Vec<(usize, usize)> = (0..n).flat_map(|j| (0..j).map(move |i| (i, j))).collect();
+            for mask in 0..(1u32 << pairs.len()) {
+                let nodes: Vec<hot::NodeDef> = (0..n)
+                    .map(|j| {
+                        let mut ops = vec![ROp::L { kind: Kind::Leaf, id: hot::LEAVES[j].to_string(), tolerant: false }];
+                        for (k, (i, jj)) in pairs.iter().enumerate() {
+                            if *jj == j && (mask >> k) & 1 == 1 {
+                                ops.push(ROp::L { kind: if i % 2 == 0 { Kind::N0 } else { Kind::N1 }, id: format!("n{i}"), tolerant: false });
+                            }
+                        }
+                        hot::NodeDef { kind: if j % 2 == 0 { Kind::N0 } else { Kind::N1 }, id: format!("n{j}"), ops }
+                    })
+                    .collect();
+                let files = (0..n).map(|j| (hot::LEAVES[j].to_string(), "la".to_string(), hot::Content::Ok(j as u16))).collect();
+                let top = nodes.iter().map(|nd| (nd.kind, nd.id.clone(), false)).collect();
+                let single = |j: usize, v: u16, batched: bool| hot::Step {
+                    edits: vec![hot::Edit::SetFile { id: hot::LEAVES[j].to_string(), ext: "la".into(), content: hot::Content::Ok(v) }],
+                    notified: vec![true],
+                    batched,
+                    duplicate: false,
+                    noise: vec![],
+                    order: 0,
+                };
+                let mut steps: Vec<hot::Step> = (0..n).map(|j| single(j, 100 + j as u16, false)).collect();
+                steps.push(hot::Step {
+                    edits: (0..n).map(|j| hot::Edit::SetFile { id: hot::LEAVES[j].to_string(), ext: "la".into(), content: hot::Content::Ok(200 + j as u16) }).collect(),
+                    notified: vec![true; 4],
+                    batched: true,
+                    duplicate: false,
+                    noise: vec![],
+                    order: mask as u16 + 1,
+                });
+                // break the lowest leaf, then repair it
+                steps.push(hot::Step { edits: vec![hot::Edit::SetFile { id: hot::LEAVES[0].to_string(), ext: "la".into(), content: hot::Content::Bad }], notified: vec![true], batched: false, duplicate: false, noise: vec![], order: 0 });
+                steps.push(single(0, 300, false));
+                out.push(to_case(&WCase { files, nodes, top, static_mode: false, second: SecondCache::None, files2: vec![], steps }));
+            }
+        }
+        out
+    }
+
+    fn enumerate_note(&self, tier: Tier) -> String {
+        format!(
+            "every DAG of load edges on 1..{} nodes (node i loads its own leaf and any subset of the lower-numbered nodes): each leaf edited alone, all leaves in one batch, then the lowest leaf broken and repaired",
+            if tier == Tier::Quick { 3 } else { 4 }
+        )
+    }
+
     fn run(&self, case: &Value) -> Outcome {
         let c: WCase = from_case(case);
         let mut out = Outcome::new();
